@@ -30,6 +30,6 @@ def one(d):
 
 
 ds = sorted(x for x in os.listdir(os.path.join(VERIF, "seeded")) if os.path.isdir(os.path.join(VERIF, "seeded", x)) and (not only or x in only))
-with concurrent.futures.ThreadPoolExecutor(max_workers=4) as ex:
+with concurrent.futures.ThreadPoolExecutor(max_workers=10) as ex:
     for d, det in ex.map(one, ds):
         print(d, json.dumps(det)[:400])
